@@ -61,7 +61,9 @@ func NewStackingContext(box Box, childContexts []StackingContext, blocks []bo.Bo
 	// by z-index, then tree order.
 
 	zIndex := box.Box().Style.GetZIndex()
-	if zIndex.String == "auto" {
+	if zIndex.String == "auto" || box.Box().Style.GetPosition().String == "static" {
+		// z-index only applies to positioned boxes: other stacking contexts
+		// (opacity, transform…) are painted at level 0
 		self.zIndex = 0
 	} else {
 		self.zIndex = zIndex.Int
